@@ -87,14 +87,23 @@ def list_passes(u, fname):
     """functions of the unit, other than the known helpers, that `fname` calls and that map one token list to a token list
     (`Token *g(Token *)`): kept opaque in the exploration of fname and judged on their own"""
     out = []
-    for c in u.fn(fname).walk():
-        g = c.callee() if c.kind == 'CallExpr' else None
-        if g is None or g in out or g in EXPAND_ANCHORS or g in KNOWN_CALLS or g not in u.functions:
+    seen = set()
+    todo = [fname]
+    while todo:
+        f = todo.pop(0)
+        if f in seen:
             continue
-        ps = u.params(g)
-        rt = (u.fn(g).type or '').split('(')[0].replace(' ', '')
-        if len(ps) == 1 and (ps[0].type or '').replace(' ', '') == 'Token*' and rt == 'Token*':
-            out.append(g)
+        seen.add(f)
+        for c in u.fn(f).walk():
+            g = c.callee() if c.kind == 'CallExpr' else None
+            if g is None or g in out or g in EXPAND_ANCHORS or g in KNOWN_CALLS or g not in u.functions:
+                continue
+            ps = u.params(g)
+            rt = (u.fn(g).type or '').split('(')[0].replace(' ', '')
+            if len(ps) == 1 and (ps[0].type or '').replace(' ', '') == 'Token*' and rt == 'Token*':
+                out.append(g)
+            else:
+                todo.append(g)      # a helper that the exploration follows inline (an extracted branch of fname): what it calls counts
     return out
 
 
@@ -187,7 +196,7 @@ def _explore_expand(P, u):
         ctx.tok = tok
         return [_Ref(VarPlace(box, 'rest')), tok]
 
-    paths = it.explore('expand_macro', mk)
+    paths = it.explore('expand_macro', mk, max_paths=2000)
     return it, [(ctx, o, ctx.box['rest']) for ctx, o in paths]
 
 
